@@ -311,10 +311,11 @@ class FacebookPhoto(FacebookParsedItem):
 
 def parse_facebook_url(url, allow_relative_urls=False):
     # NOTE: truncated urls (e.g. "facebook.com/groups/") lack the path parts
-    # or query items their route announces
+    # or query items their route announces, and a relative url can be
+    # impossible to join ("//[")
     try:
         result = _parse_facebook_url(url, allow_relative_urls=allow_relative_urls)
-    except (IndexError, KeyError):
+    except (IndexError, KeyError, ValueError):
         return None
 
     # NOTE: an empty path segment ("facebook.com/groups//x") or an empty
